@@ -3,9 +3,10 @@
 use crate::CaseResult;
 use rsdd::builder::bdd::{BddBuilder, RobddBuilder};
 use rsdd::builder::cache::AllIteTable;
+use rsdd::builder::sdd::CompressionSddBuilder;
 use rsdd::builder::BottomUpBuilder;
 use rsdd::plan::BottomUpPlan;
-use rsdd::repr::{BddPtr, Cnf, Literal, LogicalExpr, VarLabel, VarOrder};
+use rsdd::repr::{BddPtr, Cnf, DTree, Literal, LogicalExpr, PartialModel, SddPtr, VTree, VarLabel, VarOrder};
 use serde_json::{json, Value};
 
 fn eval(p: BddPtr, a: &[bool]) -> bool {
@@ -15,6 +16,56 @@ fn eval(p: BddPtr, a: &[bool]) -> bool {
         BddPtr::Reg(n) => if a[n.var.value() as usize] { eval(n.high, a) } else { eval(n.low, a) },
         BddPtr::Compl(n) => !eval(BddPtr::Reg(n), a),
     }
+}
+
+/// structural evaluation of an SDD (independent of the library's fold)
+fn seval(p: SddPtr, a: &[bool]) -> bool {
+    match p {
+        SddPtr::PtrTrue => true,
+        SddPtr::PtrFalse => false,
+        SddPtr::Var(l, pol) => a[l.value() as usize] == pol,
+        SddPtr::BDD(b) => if a[b.label().value() as usize] { seval(b.high(), a) } else { seval(b.low(), a) },
+        SddPtr::ComplBDD(b) => !seval(SddPtr::BDD(b), a),
+        SddPtr::Reg(o) => o.iter().any(|n| seval(n.prime(), a) && seval(n.sub(), a)),
+        SddPtr::Compl(o) => !seval(SddPtr::Reg(o), a),
+    }
+}
+fn vtree(v: &Value) -> VTree {
+    match v.as_array() {
+        Some(a) => VTree::new_node(Box::new(vtree(&a[0])), Box::new(vtree(&a[1]))),
+        None => VTree::new_leaf(VarLabel::new(v.as_u64().unwrap_or(0))),
+    }
+}
+fn vleaves(v: &Value, out: &mut Vec<u64>) { match v.as_array() { Some(a) => { vleaves(&a[0], out); vleaves(&a[1], out); } None => out.push(v.as_u64().unwrap_or(0)) } }
+
+fn run_sdd(c: &Value) -> CaseResult {
+    let mut ls = vec![]; vleaves(&c["vtree"], &mut ls);
+    let nv = ls.len();
+    let b = CompressionSddBuilder::new(vtree(&c["vtree"]));
+    let asg = |m: usize| -> Vec<bool> { (0..nv).map(|i| (m >> i) & 1 == 1).collect() };
+    if !c["expr"].is_null() {
+        let d = b.compile_logical_expr(&expr(&c["expr"]));
+        let d2 = b.compile_plan(&plan(&c["expr"]));
+        for m in 0..(1usize << nv) {
+            let a = asg(m);
+            if seval(d, &a) != ev(&c["expr"], &a) { return Err(format!("SDD compile_logical_expr: diagram is {} on {:?}, the expression is {}", seval(d, &a), a, ev(&c["expr"], &a))); }
+            if seval(d2, &a) != ev(&c["expr"], &a) { return Err(format!("SDD compile_plan: diagram is {} on {:?}, the plan means {}", seval(d2, &a), a, ev(&c["expr"], &a))); }
+        }
+    }
+    if !c["cnf"].is_null() {
+        let cls: Vec<Vec<Literal>> = c["cnf"].as_array().map(|cs| cs.iter().map(|cl| cl.as_array().map(|ls| ls.iter().map(|l| {
+            let x = l.as_i64().unwrap_or(1);
+            Literal::new(VarLabel::new((x.unsigned_abs() - 1) as u64), x > 0)
+        }).collect()).unwrap_or_default()).collect()).unwrap_or_default();
+        let cnf = Cnf::new(&cls);
+        let d = b.compile_cnf(&cnf);
+        for m in 0..(1usize << nv) {
+            let a = asg(m);
+            let want = cls.iter().all(|cl| cl.iter().any(|l| a[l.label().value() as usize] == l.polarity()));
+            if seval(d, &a) != want { return Err(format!("SDD compile_cnf: diagram is {} on {:?}, the CNF is {}", seval(d, &a), a, want)); }
+        }
+    }
+    Ok(())
 }
 
 fn expr(v: &Value) -> LogicalExpr {
@@ -54,6 +105,7 @@ fn ev(v: &Value, a: &[bool]) -> bool {
 }
 
 pub fn run(c: &Value) -> CaseResult {
+    if c["case"].as_str() == Some("compile_sdd") { return run_sdd(c); }
     let order: Vec<VarLabel> = c["order"].as_array().map(|a| a.iter().map(|v| VarLabel::new(v.as_u64().unwrap_or(0))).collect()).unwrap_or_default();
     let nv = order.len();
     let b = RobddBuilder::<AllIteTable<BddPtr>>::new(VarOrder::new(&order));
@@ -78,6 +130,32 @@ pub fn run(c: &Value) -> CaseResult {
             let d = b.compile_cnf(&cnf);
             let ptrs: Vec<BddPtr> = cls.iter().map(|cl| { let mut x = b.false_ptr(); for l in cl { x = b.or(x, b.var(l.label(), l.polarity())); } x }).collect();
             let cc = b.collapse_clauses(&ptrs);
+            // compiling under a partial assignment == compiling and then conditioning (same builder: same pointer)
+            if let Some(pa) = c["partial"].as_array() {
+                let pa: Vec<Option<bool>> = (0..nv).map(|i| pa.get(i).and_then(|v| v.as_bool())).collect();
+                let pm = PartialModel::from_assignments(&pa);
+                let d1 = b.compile_cnf_with_assignments(&cnf, &pm);
+                let d2 = b.condition_model(d, &pm);
+                for m in 0..(1usize << nv) {
+                    let a = asg(m);
+                    let mut a2 = a.clone();
+                    for (i, v) in pa.iter().enumerate() { if let Some(v) = v { a2[i] = *v; } }
+                    let want = cls.iter().all(|cl| cl.iter().any(|l| a2[l.label().value() as usize] == l.polarity()));
+                    if eval(d1, &a) != want { return Err(format!("compile_cnf_with_assignments({:?}): diagram is {} on {:?}, the conditioned CNF is {}", pa, eval(d1, &a), a, want)); }
+                }
+                if d1 != d2 { return Err(format!("compile_cnf_with_assignments({:?}) and compile-then-condition give different diagrams", pa)); }
+            }
+            // plan derived from a decomposition tree of the CNF (needs every variable of the order to occur)
+            if c["dtree"].as_bool().unwrap_or(false) {
+                let dt = DTree::from_cnf(&cnf, &VarOrder::new(&order));
+                let pl = BottomUpPlan::from_dtree(&dt);
+                let dp = b.compile_plan(&pl);
+                for m in 0..(1usize << nv) {
+                    let a = asg(m);
+                    let want = cls.iter().all(|cl| cl.iter().any(|l| a[l.label().value() as usize] == l.polarity()));
+                    if eval(dp, &a) != want { return Err(format!("plan from dtree: diagram is {} on {:?}, the CNF is {}", eval(dp, &a), a, want)); }
+                }
+            }
             for m in 0..(1usize << nv) {
                 let a = asg(m);
                 let want = cls.iter().all(|cl| cl.iter().any(|l| a[l.label().value() as usize] == l.polarity()));
@@ -107,14 +185,41 @@ pub fn candidates(seed: u64) -> Vec<Value> {
     }
     let orders = [[0, 1, 2], [0, 2, 1], [1, 0, 2], [1, 2, 0], [2, 0, 1], [2, 1, 0]];
     for cnf in [json!([]), json!([[]]), json!([[1]]), json!([[1, -1]]), json!([[1, 2], [-2, 3]]), json!([[1, 1, 2], [-3]]), json!([[1, 2, 3], [], [2]]), json!([[3], [-3, 1], [2, -1]])] {
-        for o in orders.iter() { out.push(json!({"case": "compile_cnf", "cnf": cnf, "order": o})); }
+        for o in orders.iter() {
+            out.push(json!({"case": "compile_cnf", "cnf": cnf, "order": o}));
+            for pa in [json!([null, null, null]), json!([true, null, null]), json!([null, false, true]), json!([false, false, false]), json!([null, true, null])] {
+                out.push(json!({"case": "compile_cnf", "cnf": cnf, "order": o, "partial": pa}));
+            }
+        }
+    }
+    // SDD builder: every vtree over 3 variables (2 shapes x 6 leaf orders) and 3 shapes over 4 variables
+    let mut vts: Vec<Value> = vec![];
+    for o in orders.iter() { vts.push(json!([[o[0], o[1]], o[2]])); vts.push(json!([o[0], [o[1], o[2]]])); }
+    for cnf in [json!([]), json!([[]]), json!([[1]]), json!([[1, -1]]), json!([[1, 2], [-2, 3]]), json!([[1, 1, 2], [-3]]), json!([[1, 2, 3], [], [2]]), json!([[3], [-3, 1], [2, -1]])] {
+        for vt in vts.iter() { out.push(json!({"case": "compile_sdd", "cnf": cnf, "vtree": vt})); }
+    }
+    for k in 0..400 {
+        let vt = vts[nx(12) as usize].clone();
+        let ncl = nx(5);
+        let cnf: Vec<Vec<i64>> = (0..ncl).map(|_| (0..nx(4)).map(|_| { let v = 1 + nx(3) as i64; if nx(2) == 0 { v } else { -v } }).collect()).collect();
+        out.push(json!({"case": "compile_sdd", "cnf": cnf, "expr": gen(3, &mut nx), "vtree": vt}));
+        if k % 4 == 0 {
+            let vt4 = [json!([[0, 1], [2, 3]]), json!([[[3, 1], 0], 2]), json!([2, [0, [3, 1]]]), json!([[1, [3, 0]], 2])][nx(4) as usize].clone();
+            let cnf4: Vec<Vec<i64>> = (0..1 + nx(5)).map(|_| (0..1 + nx(3)).map(|_| { let v = 1 + nx(4) as i64; if nx(2) == 0 { v } else { -v } }).collect()).collect();
+            out.push(json!({"case": "compile_sdd", "cnf": cnf4, "vtree": vt4}));
+        }
     }
     for _ in 0..600 {
         let o = orders[nx(6) as usize];
         out.push(json!({"case": "compile_expr", "expr": gen(4, &mut nx), "order": o}));
         let ncl = nx(5);
         let cnf: Vec<Vec<i64>> = (0..ncl).map(|_| (0..nx(4)).map(|_| { let v = 1 + nx(3) as i64; if nx(2) == 0 { v } else { -v } }).collect()).collect();
-        out.push(json!({"case": "compile_cnf", "cnf": cnf, "order": o}));
+        let pa: Vec<Value> = (0..3).map(|_| match nx(3) { 0 => Value::Null, 1 => json!(true), _ => json!(false) }).collect();
+        out.push(json!({"case": "compile_cnf", "cnf": cnf, "order": o, "partial": pa}));
+        // dtree plans: every variable occurs, no empty clause (DTree::from_cnf's domain)
+        let mut cnf2: Vec<Vec<i64>> = cnf.iter().filter(|c| !c.is_empty()).cloned().collect();
+        cnf2.push(vec![1, -2, 3]);
+        out.push(json!({"case": "compile_cnf", "cnf": cnf2, "order": o, "dtree": true}));
     }
     out
 }
